@@ -254,3 +254,19 @@ def test_nested_typed_containers_not_shared_across_configs():
     a.l.extend(b.l)
     a.l[-1].append(9)
     assert list(b.l[0]) == [1]
+
+
+# ---- C10: the mask reaches configurations nested inside container values ----------------------
+def test_mask_reaches_configs_nested_in_containers():
+    item = cc.Schema()
+    item.name = cc.StringField()
+    item.pw = cc.StringField(sensitive=True)
+    s = cc.Schema()
+    s.d = cc.DictField(cc.StringField(), cc.ListField(item))
+    s.ll = cc.ListField(cc.ListField(item))
+    cfg = s()
+    cfg.d = {"k": [item(name="n", pw="TOPSECRET")]}
+    cfg.ll = [[item(name="n", pw="TOPSECRET")]]
+    assert "TOPSECRET" not in repr(cfg.to_tree(sensitive_mask="*"))
+    assert b"TOPSECRET" not in cfg.dumps("json", sensitive_mask="XX")
+    assert "TOPSECRET" in repr(cfg.to_tree())
